@@ -68,7 +68,9 @@ def gen_cases(rng, tier):
 
 
 def equal(impl, spec):
-    """C02 only judges memory events: the accepted case must not trap"""
+    """C02 only judges memory events: the ACCEPTED case (the reference is a value) must not trap; what happens for arguments the
+    reference rejects ("nothing") is C15's / the lending property's subject"""
+    if " ".join(spec.split()) == "nothing": return True
     return not (impl.startswith("trap") or " trap " in impl or "| trap" in impl)
 
 
